@@ -100,6 +100,9 @@ class Evaluator(object):
             return [nd[1]] * n
         if k == 'ref':
             return self.ev(self.defs[nd[1]])
+        if k in ('unless', 'unless_b'):
+            from ..specgen import desugar
+            return self.ev(desugar(nd))
         if k in ('neg', 'abs', 'sqrt', 'exp', 'ln'):
             x = self.ev(nd[1])
             return [_arith(k, x[t]) for t in R]
